@@ -3,6 +3,7 @@ import itertools
 
 from harness.impl_aggregates import impl_agg_op, enc_children, enc_blocks
 
+WARM_TWINS = {"quick": 0.02, "thorough": 0.05}      # engine: call-history twins (harness/warm.py)
 ID = "C20"
 LEAN_MODULE = "BioCantor.Props.C20"
 DESIGN_REF = "4/C20"
@@ -10,7 +11,7 @@ DRIVER = "drivers/C20.lean"
 SPEC_DRIVER = "drivers/SpecC20.lean"
 DRIVER_MODULES = ["BioCantor.Driver.Main", "BioCantor.Driver.Aggregates"]
 SPEC_DRIVER_MODULES = ["BioCantor.Driver.Main", "BioCantor.Driver.SpecAggregates"]
-MODEL_OPS = {"gene", "genek", "gmt", "gmc", "fcoll", "fcollk", "fmf", "acoll", "acollp"}       # gacc: real objects with sequence vs the spec only
+MODEL_OPS = {"gene", "genek", "gmt", "gmc", "fcoll", "fcollk", "fmf", "acoll", "acollp", "acollk"}       # gacc: real objects with sequence vs the spec only
 ERR_CLASS = True
 RULE = ("genek / fcollk: the gene / fcoll lists with one child fewer, built on 7 sequence-chunk windows x both chunk "
         "strands (members contained in / cut by / outside the chunk); gene / fcoll: every list of <= K children (K=3 quick, 4 thorough) over 8 transcript (6 feature) templates "
@@ -71,7 +72,7 @@ def nontrivial(line, ans):
         return line if int(t[4]) >= 2 else None
     if op in ("gmt", "gmc"):
         return line if int(t[2]) >= 2 else None
-    if op == "acollp":
+    if op in ("acollp", "acollk"):
         t = [t[0]] + t[3:]
         op = "acoll"
     if op == "acoll":
@@ -171,6 +172,19 @@ def _exhaustive(run, kmax):
                 for bs, be in (("-", "-"), ("1", "30"), ("2", "-")):
                     run.count("acollp")
                     yield f"acollp {ps} {pe} {bs} {be} {enc_blocks(gl)} {enc_blocks(fl)}"
+
+
+    # chunk-built collections: members contained in / overhanging the left or right edge of / outside the chunk
+    # (iteration order and bounds are functions of the CHROMOSOME coordinates of the members)
+    spans_k = [(0, 5), (2, 9), (3, 8), (5, 6), (1, 4), (7, 11)]
+    lists_k = [list(p) for n in range(0, 3) for p in itertools.product(spans_k, repeat=n)]
+    for lo, hi in ((3, 10), (4, 6), (0, 12)):
+        for gl in lists_k:
+            for fl in lists_k:
+                if len(gl) + len(fl) == 0 or (len(gl) + len(fl) > 3 and run.tier == "quick"):
+                    continue
+                run.count("acollk")
+                yield f"acollk {lo} {hi} - - {enc_blocks(gl)} {enc_blocks(fl)}"
 
 
 def _rand_blocks(rng, maxb, genome):
